@@ -506,6 +506,26 @@ fn run_case(line: &str) -> String {
             }
         }
         "cut" => run_cut(&kv),
+        // match positions of the real regex engine, for RE and (RE)+
+        "rematch" => {
+            let t = String::from_utf8_lossy(&opt_bytes(&kv, "re").unwrap_or_default()).into_owned();
+            let input = opt_bytes(&kv, "in").unwrap_or_default();
+            match (
+                regex::bytes::Regex::new(&t),
+                regex::bytes::Regex::new(&format!("({})+", &t)),
+            ) {
+                (Ok(n), Ok(g)) => {
+                    let f = |r: &regex::bytes::Regex| {
+                        r.find_iter(&input)
+                            .map(|m| format!("{}:{}", m.start(), m.end()))
+                            .collect::<Vec<_>>()
+                            .join(",")
+                    };
+                    format!("ok n={} g={}", f(&n), f(&g))
+                }
+                _ => "badregex".to_string(),
+            }
+        }
         _ => "badcase".to_string(),
     }
 }
